@@ -1241,13 +1241,14 @@ def fold_correlated_switches(b):
 
 
 # ----------------------------------------------------------------------------- boolean branches
-def bool_branch(body, start_block, local):
+def bool_branch(body, start_block, local, _pos=None, _seen=None, _depth=0):
     """Follow straight-line code from `start_block` (exclusive of its terminator's effect) to the
-    switch that tests `local` (through moves/copies and `Not`). Returns
-    (switch_block, true_target, false_target) or None."""
-    pos = {local: True}  # alias -> polarity (True = same truth value)
+    switch that tests `local` (through moves/copies and `Not`; also through a tuple the bool is packed into for a
+    `match (a, flag)` - then switches on the other components are passed, provided every way through them reaches the same
+    test). Returns (switch_block, true_target, false_target) or None."""
+    pos = dict(_pos) if _pos is not None else {local: True}  # alias (local or (tuple local, field)) -> polarity
     b = start_block
-    seen = set()
+    seen = set(_seen) if _seen is not None else set()
     while b is not None and b not in seen:
         seen.add(b)
         blk = body.blocks[b]
@@ -1263,9 +1264,35 @@ def bool_branch(body, start_block, local):
                 p = op_place(rv['a'])
                 if p and not place_proj(p) and p['l'] in pos:
                     pos[s['lhs']['l']] = not pos[p['l']]
+            elif rv['k'] == 'agg' and rv.get('agg') == 'tuple':
+                for i_, f_ in enumerate(rv['fields']):
+                    p = op_place(f_)
+                    if p and not place_proj(p) and p['l'] in pos:
+                        pos[(s['lhs']['l'], str(i_))] = pos[p['l']]
         t = blk['term']
         if t['k'] == 'switch':
             p = op_place(t['discr'])
+            pj_ = place_proj(p) if p else None
+            if p and pj_ and len(pj_) == 1 and isinstance(pj_[0], dict) and (p['l'], str(pj_[0].get('f'))) in pos:
+                key_ = (p['l'], str(pj_[0].get('f')))
+                zero = [tb for v, tb in t['targets'] if v == 0]
+                if len(t['targets']) == 1 and zero:
+                    tt, ft = t['otherwise'], zero[0]
+                elif len(t['targets']) == 1 and t['targets'][0][0] == 1:
+                    tt, ft = t['targets'][0][1], t['otherwise']
+                else:
+                    return None
+                if not pos[key_]:
+                    tt, ft = ft, tt
+                return (b, tt, ft)
+            if any(isinstance(k_, tuple) for k_ in pos) and _depth < 4:
+                # a switch on another component of the tuple: every arm that tests the flag at all must do it at the same place
+                res_ = set()
+                for nb in term_succs(t):
+                    r_ = bool_branch(body, nb, local, pos, seen | {b}, _depth + 1)
+                    if r_ is not None:
+                        res_.add(r_)
+                return res_.pop() if len(res_) == 1 else None
             if p and not place_proj(p) and p['l'] in pos:
                 zero = [tb for v, tb in t['targets'] if v == 0]
                 if len(t['targets']) == 1 and zero:
